@@ -14,7 +14,7 @@ Local Open Scope Z_scope.
 
 (** * Requests *)
 
-Inductive cookie := CNone | CTok (tok : N).           (* the agh_session cookie *)
+Inductive cookie := CNone | CTok (sp : bytes).        (* the agh_session cookie: its value as sent *)
 Inductive basic := BNone | BCred (ok : bool).         (* Authorization: Basic; [ok] = what findUser answers *)
 
 Record request := {
@@ -122,7 +122,7 @@ Definition pre_install (h : H) : H := fun e w r =>
   if negb (e_first_run e) then (w, AStatus 403) else h e w r.
 
 (** [checkSession] on the world. *)
-Definition check_cookie (e : env) (w : world A) (tok : N) : world A * bool :=
+Definition check_cookie (e : env) (w : world A) (tok : bytes) : world A * bool :=
   let '(s', res) := check_session (e_ttl e) (e_now e) tok (w_sess w) in
   ({| w_app := w_app w; w_sess := s' |}, match res with CSOK => true | _ => false end).
 
